@@ -1583,6 +1583,9 @@ namespace Clipper2Lib {
   {
     // splitOp.prev -> splitOp &&
     // splitOp.next -> splitOp.next.next are intersecting
+#ifdef CLIPPER2_VERIF
+    if (verif::split_fn) verif::split_fn(using_polytree_ ? 1 : 0, static_cast<long long>(outrec->idx));
+#endif
     OutPt* prevOp = splitOp->prev;
     OutPt* nextNextOp = splitOp->next->next;
     outrec->pts = prevOp;
